@@ -207,7 +207,7 @@ func walletHistory(r *evid.Run, dir string, cs int64) {
 			what = fmt.Sprintf("NextAccount(%v, %q) -> %v", sc, n, err)
 		case 9:
 			f.Stop()
-			if err := f.Open(0, true); err != nil {
+			if err := f.Open(f.Window, true); err != nil {
 				if errors.Is(err, wh.ErrNotSynced) {
 					r.Inconclusive("resync watchdog")
 					return
